@@ -21,8 +21,9 @@ import os
 import re
 import sys
 
-SRC = sys.argv[1] if len(sys.argv) > 1 else "/repo/src"
-OUT = sys.argv[2] if len(sys.argv) > 2 else os.path.join(os.path.dirname(os.path.abspath(__file__)), "..", "coq", "gen")
+_args = [a for a in sys.argv[1:] if not a.startswith("--")]
+SRC = _args[0] if len(_args) > 0 else "/repo/src"
+OUT = _args[1] if len(_args) > 1 else os.path.join(os.path.dirname(os.path.abspath(__file__)), "..", "coq", "gen")
 
 
 class GenError(Exception):
@@ -534,6 +535,62 @@ def gen_funs(consts):
     return s
 
 
+
+def fingerprints():
+    """sha256 of every fn body in src (comments and whitespace removed), keyed by file::impl header::fn name.
+    Informational: check.py widens the correspondence run of a property when a function in its anchor files
+    differs from the committed baseline (tools/fingerprints.json)."""
+    out = {}
+    for root, _, files in os.walk(SRC):
+        for fn in sorted(files):
+            if not fn.endswith(".rs") or fn == "tests.rs" or "/bin" in root:
+                continue
+            rel = os.path.relpath(os.path.join(root, fn), SRC)
+            text = strip_comments(open(os.path.join(root, fn)).read())
+            text = text.split("#[cfg(test)]\nmod tests {")[0]
+            # impl / trait block ranges
+            blocks = []
+            for m in re.finditer(r"^(?:pub\s+)?(?:unsafe\s+)?(impl\b[^{;]*|trait\b[^{;]*)\{", text, re.M):
+                i = m.end() - 1
+                depth, j = 0, i
+                while j < len(text):
+                    if text[j] == "{":
+                        depth += 1
+                    elif text[j] == "}":
+                        depth -= 1
+                        if depth == 0:
+                            break
+                    j += 1
+                blocks.append((i, j, re.sub(r"\s+", " ", m.group(1)).strip()))
+            for m in re.finditer(r"\bfn\s+([A-Za-z_][A-Za-z0-9_]*)\s*(?:<[^>{]*>)?\s*\(", text):
+                k = text.find("{", m.end())
+                semi = text.find(";", m.end())
+                if k < 0 or (0 <= semi < k):
+                    continue
+                depth, j = 0, k
+                while j < len(text):
+                    if text[j] == "{":
+                        depth += 1
+                    elif text[j] == "}":
+                        depth -= 1
+                        if depth == 0:
+                            break
+                    j += 1
+                body = re.sub(r"\s+", "", text[m.start():j + 1])
+                hdr = ""
+                for (a, b, h) in blocks:
+                    if a < m.start() < b:
+                        hdr = h
+                key = "%s::%s::%s" % (rel, hdr, m.group(1))
+                n = 2
+                base = key
+                while key in out:
+                    key = "%s#%d" % (base, n)
+                    n += 1
+                out[key] = hashlib.sha256(body.encode()).hexdigest()[:16]
+    return out
+
+
 def main():
     os.makedirs(OUT, exist_ok=True)
     report = {"changed": [], "errors": []}
@@ -555,6 +612,16 @@ def main():
         with open(os.path.join(OUT, name), "rb") as f:
             h.update(f.read())
     report["sha256"] = h.hexdigest()
+    fp = fingerprints()
+    base_path = os.path.join(os.path.dirname(os.path.abspath(__file__)), "fingerprints.json")
+    if "--write-baseline" in sys.argv:
+        with open(base_path, "w") as f:
+            json.dump(fp, f, indent=0, sort_keys=True)
+    changed = []
+    if os.path.exists(base_path):
+        base = json.load(open(base_path))
+        changed = sorted(k for k in set(fp) | set(base) if fp.get(k) != base.get(k))
+    report["changed_functions"] = changed
     print(json.dumps(report))
 
 
